@@ -1,10 +1,14 @@
 package verifh
 
 import (
+	"context"
 	"fmt"
 
 	"github.com/cockroachdb/errors"
+	"github.com/cockroachdb/errors/extgrpc"
+	"github.com/cockroachdb/errors/exthttp"
 	"github.com/cockroachdb/redact"
+	"google.golang.org/grpc/codes"
 	"verifh/sym"
 )
 
@@ -21,4 +25,9 @@ func H_Smoke(v *sym.V) {
 	v.Observe("r", r)
 	p := fmt.Sprintf("%+v", w)
 	v.Observe("plus", p)
+	x := exthttp.WrapWithHTTPCode(extgrpc.WrapWithGrpcCode(w, codes.Code(v.Uint32("code"))), 404)
+	enc := errors.EncodeError(context.Background(), x)
+	d := errors.DecodeError(context.Background(), enc)
+	v.Observe("d", fmt.Sprintf("%+v", d))
+	v.Assert("code", extgrpc.GetGrpcCode(d) == extgrpc.GetGrpcCode(x))
 }
